@@ -105,7 +105,7 @@ inline Op decode(const uint8_t* b, const Profile& p) {
       }
       o.a[CA_SLOT] = b[2] % NSLOT;
       o.a[CA_OBJ] = p.concentrate ? (b[4] % 8 < 6 ? 0 : 1 + b[4] % 2) : b[4] % NOBJ;
-      static const int conc_funcs[] = {F_f, F_f, F_f, F_f, F_g, F_ovi, F_ovs, F_h, F_v, F_cf, F_f, F_g};
+      static const int conc_funcs[] = {F_f, F_f, F_f, F_w, F_g, F_ovi, F_ovs, F_h, F_v, F_cf, F_f, F_g};
       o.a[CA_FUNC] = p.concentrate ? conc_funcs[b[5] % 12] : b[5] % NFUNC;
       o.a[CA_TERM] = pct(6, p.p_throw_term) ? 1 : 0;
       int nseq = pct(7, p.p_seq) ? (pct(8, p.p_seq2) ? (b[8] >= 200 ? 3 : 2) : 1) : 0;   // 3: a member of every sequence
@@ -138,7 +138,7 @@ inline Op decode(const uint8_t* b, const Profile& p) {
     }
     case O_RELEASE: o.a = {static_cast<int>(b[2] % (NSLOT + NLIT))}; break;
     case O_CALL: {
-      static const int conc_funcs[] = {F_f, F_f, F_f, F_f, F_g, F_ovi, F_ovs, F_h, F_v, F_cf, F_f, F_g};
+      static const int conc_funcs[] = {F_f, F_f, F_f, F_w, F_g, F_ovi, F_ovs, F_h, F_v, F_cf, F_f, F_g};
       int ob = p.concentrate ? (b[2] % 8 < 6 ? 0 : 1 + b[2] % 2) : b[2] % NOBJ;
       int fn = p.concentrate ? conc_funcs[b[3] % 12] : b[3] % NFUNC;
       o.a = {ob, fn, argval(4), argval(5)};
